@@ -85,6 +85,13 @@ var c02Families = []c02Family{
 			return fmt.Sprintf("fragment T%d on __Type { ofType { ...T%d } ...T%d } ", i, i+1, i+1)
 		}) + fmt.Sprintf("fragment T%d on __Type { name }", k)
 	}},
+	{"fanout-introspection-two-depths", nil, func(k int) string {
+		// the same fan-out chain is reached at two list depths, the shallower one first
+		return "{ __schema { types { ...T0 fields { type { ...T0 } } } } } " + rep(k, func(i int) string { return fmt.Sprintf("fragment T%d on __Type { name ...T%d ...T%d } ", i, i+1, i+1) }) + fmt.Sprintf("fragment T%d on __Type { name }", k)
+	}},
+	{"fanout-introspection-deeper-first", nil, func(k int) string {
+		return "{ __schema { types { fields { type { ...T0 } } ...T0 } } } " + rep(k, func(i int) string { return fmt.Sprintf("fragment T%d on __Type { ...T%d kind ...T%d } ", i, i+1, i+1) }) + fmt.Sprintf("fragment T%d on __Type { name }", k)
+	}},
 	{"fanout-subscription", nil, func(k int) string {
 		return "subscription { ...S0 } " + rep(k, func(i int) string { return fmt.Sprintf("fragment S%d on Subscription { ...S%d ...S%d } ", i, i+1, i+1) }) + fmt.Sprintf("fragment S%d on Subscription { tick }", k)
 	}},
